@@ -31,6 +31,7 @@ ASSUMPTIONS = [
     'load_model at the end of merge() replaced by a no-op; raw open(r+b) writes are modelled at element '
     'granularity on the virtual npy file',
     'forms added after seeding rounds: an optional matrix absent in one probe (nothing may be written for it), a non-final probe whose last template never fired, unequal template dtypes',
+    'round 7: first probe with 256 channels and uint8 index tables (symbolic tables, concrete channels)',
 ]
 STUBS = ['tqdm', 'load_model inside merge()', 'scipy.linalg.block_diag (reference implementation on symbolic '
          'matrices)', 'np.save/np.load/open (virtual file system)']
